@@ -40,7 +40,7 @@ CHECKS['C03'] = dict(
          'strictly higher): C03_priorities_refine - for any number of mapping documents whose scalars and enclosing mappings carry arbitrary !force/!weak/!metadata{{priority}} tags '
          '(no !del/!notnew marks; !new, !unsafe, user metadata free; LISTS are values taken as a whole - inside a list no node has a priority tag of its own, so the list carries one priority, its own tag or an enclosing one - under the side condition hcompat that a mapping never meets a list at the same path, which is decidable, vacuous without lists (C03_no_lists_no_side_condition), implied by the document-by-document reading "no document has a list where an earlier one has a mapping, or the other way round" (C03_side_condition_document_by_document) and checked by the correspondence), Builder.flatten succeeds and builds exactly the left fold of upd_p over the documents\' priority images (values AND priorities of all nodes; '
          'induction on the fuel, loop lemma loop_dict_z, invariants OldZ/NewZ); C03_every_leaf_path_latest_of_highest - at every path whose spine is mappings in every document, the merged '
-         'value is that of the latest document among those of highest priority there (pre <= W > post), nothing if nobody writes it; C03_update_is_pointwise; C03_prediction_sound / '
+         'value is that of the latest document among those of highest priority there (pre <= W > post), nothing if nobody writes it; C03_update_is_pointwise; C03_metadata_refines (Spec/UpdatePM.upd_pm: the same update with the user-metadata mapping of every node - at every meeting {**loser, **survivor} - refined by the merge on the same class: values, priorities AND metadata; C03_metadata_keys_at_every_meeting: no key lost, none invented; C03_metadata_forgets_to_priorities; tied to Builder.build by its own correspondence); C03_prediction_sound / '
          'C03_document_prediction_sound, C03_evaluated_config (down to the config a user gets: merge, placeholder check, deep copy, evaluation yield exactly the values of the fold) (the class is decidable; the correspondence runs the sound checker on the trees the real loader built and on the documents as written and compares the '
          'predicted tree with Builder.build: a value difference is a concrete failing input). Outside the class (priority tags INSIDE lists and lists meeting mappings - known findings D18/D5 live there -, !del/!notnew marks, '
          'dynamic nodes) the statement stays with the sampled merge correspondence and the latest-argmax / exact-metadata oracle.',
